@@ -48,6 +48,8 @@ type Route struct {
 	// "db:ReadPrivilege" / "db:WritePrivilege" (AuthorizeDatabase), "write" (WriteAuthorizer.AuthorizeWrite of the
 	// user's ID), "query" (AuthorizeQuery); "?" when the handler could not be resolved
 	Guards []string `json:"guards"`
+	// the condition under which the handler goes on instead of refusing, as a formula over authorization atoms (gexpr.go)
+	Formula string `json:"formula"`
 }
 
 type WrapRule struct {
@@ -625,6 +627,12 @@ func emitRoute(repo string, p *packages.Package, fields map[string]ast.Expr, h a
 	if r.Sig == "user" && h != nil {
 		r.UsesUser = usesUser(p, h)
 		r.Guards = guardsOfHandler(p, h)
+		r.Formula = formulaOfHandler(p, h)
+		if !decides(r.Formula) && len(r.Guards) > 0 {
+			// the evaluator lost a decision the coarser analysis sees (e.g. carried by a result that is neither bool nor
+			// error): not understood
+			r.Formula = "?0"
+		}
 	}
 	out.Routes = append(out.Routes, r)
 }
